@@ -27,12 +27,16 @@ CONSTANTS
                 \*   poolTO   : [Req -> pool timeout in ticks, or NoTimeout]
                 \*   mux      : origins whose connections turn out to be HTTP/2
                 \*   muxGuess : origins whose still-connecting connections report "available"
+                \*   noKeep   : requests whose response forbids reuse (Connection: close, HTTP/1.0,
+                \*              close-delimited body)
   None,
   NoExpiry,
   NoTimeout,
   MaxClock,
   Faults,       \* how many injected failures / cancellations / peer closes in total
   Abandons,     \* may callers close a response without reading it to the end
+  CancelStyles, \* subset of {"scope", "native"}
+  WithPoolClose,\* may the pool be closed while the execution goes on
   Deviations
 
 
@@ -57,7 +61,7 @@ VARIABLES
   tocl,     \* [Req -> SUBSET Conn] evicted by r's pass, still to be closed by r
   nxt,      \* [Req -> where r continues after closing evicted connections]
   exc,      \* [Req -> "none" | "fail" | "cancel" | "timeout"] exception being unwound
-  creq,     \* [Req -> BOOLEAN] a scope-style cancellation has been requested
+  creq,     \* [Req -> "no" | "scope" | "native"] a cancellation has been requested (and its style)
   sent,     \* [Req -> SUBSET Conn] connections request bytes were written to
   got,      \* [Req -> Req \cup {None}] token of the response head delivered to r
   wdl,      \* [Req -> Int] deadline of the current pool wait (NoTimeout = none)
@@ -72,6 +76,7 @@ vars  == <<cfg, pool, nextc, cvars, evicted, queue, rvars, clock, budget, pclose
 Terminal == {"done", "failed", "timedout", "cancelled"}
 Live(r)  == pc[r] \notin Terminal \cup {"init"}
 
+Dev(d) == d \in Deviations     \* a deviation ADDS behaviour: the intended one stays possible
 OriginOf == cfg.originOf
 MaxConn  == cfg.maxConn
 MaxKeep  == cfg.maxKeep
@@ -120,7 +125,7 @@ Clean(orig, i, S) ==
   IF i > Len(orig) THEN S
   ELSE LET c == orig[i]
            idleN == Cardinality({j \in DOMAIN S.cur : IsIdleS(S.st[S.cur[j]])})
-           keepN == IF "KeepaliveCountsAll" \in Deviations THEN Len(S.cur) ELSE idleN
+           keepN == IF Dev("KeepaliveCountsAll") THEN Len(S.cur) ELSE idleN
        IN IF IsClosedS(S.st[c])
             THEN Clean(orig, i + 1, [S EXCEPT !.cur = SeqRemove(@, c)])
           ELSE IF HasExpiredS(S.st[c], cmux[c], cexp[c], cdead[c], clock)
@@ -142,7 +147,8 @@ AssignOne(S, r) ==
       ia == FirstIdx(S, LAMBDA c : S.org[c] = o /\ IsAvailS(S.st[c], cmux[c], cerr[c], S.org[c]))
       ii == FirstIdx(S, LAMBDA c : IsIdleS(S.st[c]))
   IN IF ia # 0 THEN [S EXCEPT !.asg[r] = S.cur[ia]]
-     ELSE IF Len(S.cur) < MaxConn /\ S.nx \in Conn THEN Create(S, r, o)
+     ELSE IF (Len(S.cur) < MaxConn \/ (Dev("CreateAtLimit") /\ Len(S.cur) = MaxConn)) /\ S.nx \in Conn
+       THEN Create(S, r, o)
      ELSE IF Len(S.cur) >= MaxConn /\ ii # 0 /\ S.nx \in Conn
        THEN Create([S EXCEPT !.cur = SeqRemove(@, S.cur[ii]), !.cl = @ \cup {S.cur[ii]}], r, o)
      ELSE S
@@ -175,7 +181,7 @@ ApplyPass(r, S, q, then, pcr) ==
 (* independent of the algorithm): used as an action property here and as   *)
 (* the acceptance relation for recorded passes in PoolTrace.               *)
 (***************************************************************************)
-PassRel(P, A, Q, P2, A2, CL, now, st0) ==
+PassRel(P, A, Q, P2, A2, CL, now, st0, countAll) ==
   LET Pset  == SeqToSet(P)
       P2set == SeqToSet(P2)
       New   == P2set \ Pset
@@ -188,15 +194,12 @@ PassRel(P, A, Q, P2, A2, CL, now, st0) ==
       newly == {r \in SeqToSet(Q) : A[r] = None /\ A2[r] # None}
       left  == {r \in SeqToSet(Q) : A2[r] = None}
       roomEv == {c \in Gone : ~Cl(c) /\ ~Exp(c)}      \* removed although healthy
-      surplus == IF idle0 > MaxKeep THEN idle0 - MaxKeep ELSE 0
+      keep0 == IF countAll THEN Len(P) ELSE idle0     \* DEVIATION KeepaliveCountsAll: the code counts ALL connections
+      surplus == IF keep0 > MaxKeep THEN keep0 - MaxKeep ELSE 0
   IN
   \* every removal has a reason; closed ones are only dropped, the others are to be closed
   /\ \A c \in Gone : Cl(c) \/ Exp(c) \/ Id(c)
   /\ CL = {c \in Gone : ~Cl(c)}
-  \* healthy idle connections are closed only as surplus or to make room   (C09):
-  \* each one beyond the surplus is paid for by a connection created at the limit
-  /\ Cardinality(roomEv) <= surplus + Cardinality(New)
-  /\ Cardinality(roomEv) > surplus => Cardinality(P2set) >= MaxConn
   \* the limit                                                            (C04)
   /\ Cardinality(P2set) <= MaxConn
   \* assignments only grow, and only for queued requests
@@ -207,11 +210,18 @@ PassRel(P, A, Q, P2, A2, CL, now, st0) ==
   /\ \A r \in newly : A2[r] \notin New =>
         /\ A2[r] \in Pset /\ corg[A2[r]] = OriginOf[r] /\ Av(A2[r])
         /\ ~Cl(A2[r]) /\ ~Exp(A2[r])
-  \* a new connection is created only for a request whose origin has no free available one
   /\ \A c \in New : \E r \in newly : A2[r] = c /\ corg'[c] = OriginOf[r]
-  /\ \A r \in newly : A2[r] \in New =>
-        \A c \in P2set \ New : (corg[c] = OriginOf[r] /\ Av(c) /\ ~Exp(c) /\ ~Cl(c))
-                                  => \E x \in Req : x # r /\ A2[x] = c
+  \* healthy idle connections are closed only as surplus (at most `surplus` of them) or to make
+  \* room at the limit: each of those is paid for by a connection created in the same pass, the
+  \* pool is full afterwards, and a new connection is created only for a request whose origin
+  \* had no free available connection - an evicted one included               (C09)
+  /\ \E Sur \in SUBSET roomEv :
+        /\ Cardinality(Sur) <= surplus
+        /\ Cardinality(roomEv \ Sur) <= Cardinality(New)
+        /\ roomEv \ Sur # {} => Cardinality(P2set) >= MaxConn
+        /\ \A r \in newly : A2[r] \in New =>
+              \A c \in Pset \ Sur : (corg[c] = OriginOf[r] /\ Av(c) /\ ~Exp(c) /\ ~Cl(c))
+                                        => \E x \in Req : x # r /\ A2[x] = c
   \* whoever is left waiting cannot be served                            (C07)
   /\ \A r \in left :
         /\ ~\E c \in P2set \ New : corg[c] = OriginOf[r] /\ Av(c) /\ ~Exp(c) /\ ~Cl(c)
@@ -232,7 +242,7 @@ InitRest ==
   /\ evicted = {} /\ queue = <<>>
   /\ pc = [r \in Req |-> "init"] /\ asg = [r \in Req |-> None]
   /\ tocl = [r \in Req |-> {}] /\ nxt = [r \in Req |-> "wait"]
-  /\ exc = [r \in Req |-> "none"] /\ creq = [r \in Req |-> FALSE]
+  /\ exc = [r \in Req |-> "none"] /\ creq = [r \in Req |-> "no"]
   /\ sent = [r \in Req |-> {}] /\ got = [r \in Req |-> None]
   /\ wdl = [r \in Req |-> NoTimeout]
   /\ clock = 0 /\ budget = Faults /\ pclosed = FALSE
@@ -285,7 +295,7 @@ TimeoutDue(r) == pc[r] = "parked" /\ wdl[r] # NoTimeout /\ clock >= wdl[r]
 (* PoolTimeout: intended design - only a request that has NOT been given a connection *)
 PoolTimeout(r) ==
   /\ TimeoutDue(r)
-  /\ asg[r] = None \/ "TimeoutAfterAssign" \in Deviations
+  /\ asg[r] = None \/ Dev("TimeoutAfterAssign")
   /\ pc' = [pc EXCEPT ![r] = "leave"]
   /\ exc' = [exc EXCEPT ![r] = "timeout"]
   /\ wdl' = [wdl EXCEPT ![r] = NoTimeout]
@@ -307,11 +317,15 @@ Enter(r) ==
 ReqLock(r) ==
   /\ pc[r] = "reqlock" /\ cst[asg[r]] # "connecting"
   /\ IF cst[asg[r]] = "failed"
-       THEN \* connection.py: the second caller finds _connect_failed... it retries the connect itself;
-            \* modelled as the same failure reaching it
-            pc' = [pc EXCEPT ![r] = "leave"] /\ exc' = [exc EXCEPT ![r] = "fail"]
-       ELSE pc' = [pc EXCEPT ![r] = "gate"] /\ UNCHANGED exc
-  /\ UNCHANGED <<cfg, pool, nextc, cvars, evicted, queue, asg, tocl, nxt, creq, sent, got, wdl, clock, budget, pclosed>>
+       THEN \/ \* intended: the dead object refuses the request before anything is written;
+               \* the request keeps its queue position and is assigned afresh
+               pc' = [pc EXCEPT ![r] = "retry"] /\ asg' = [asg EXCEPT ![r] = None]
+            \/ \* DEVIATION ReconnectOnFailed (what connection.py does): the second caller finds
+               \* _connection still None and establishes the connection again on the object the
+               \* pool has already dropped
+               Dev("ReconnectOnFailed") /\ pc' = [pc EXCEPT ![r] = "estab"] /\ UNCHANGED asg
+       ELSE pc' = [pc EXCEPT ![r] = "gate"] /\ UNCHANGED asg
+  /\ UNCHANGED <<cfg, pool, nextc, cvars, evicted, queue, tocl, nxt, exc, creq, sent, got, wdl, clock, budget, pclosed>>
 
 (* the network stream opens (TCP connect completes, connection.py 105-139); what follows
    (TLS, CONNECT, SOCKS negotiation) happens on the open stream while the connection still
@@ -344,7 +358,8 @@ ConnectFail(r) ==
 EstabFail(r) ==
   /\ pc[r] = "tls" /\ budget > 0
   /\ cst' = [cst EXCEPT ![asg[r]] = "failed"]
-  /\ cstr' = [cstr EXCEPT ![asg[r]] = IF "EstabFailLeaksStream" \in Deviations THEN @ ELSE "closed"]
+  /\ \/ cstr' = [cstr EXCEPT ![asg[r]] = "closed"]
+     \/ Dev("EstabFailLeaksStream") /\ UNCHANGED cstr
   /\ pc' = [pc EXCEPT ![r] = "leave"]
   /\ exc' = [exc EXCEPT ![r] = "fail"]
   /\ budget' = budget - 1
@@ -401,7 +416,7 @@ ReadAll(r) ==
   /\ pc[r] = "hold"
   /\ LET c == asg[r] IN
      /\ cwire' = [cwire EXCEPT ![c] = IF cmux[c] THEN @ ELSE Tail(@)]
-     /\ cexch' = [cexch EXCEPT ![c] = IF cmux[c] THEN @ ELSE "clean"]
+     /\ cexch' = [cexch EXCEPT ![c] = IF cmux[c] THEN @ ELSE IF r \in cfg.noKeep THEN "resp" ELSE "clean"]
   /\ pc' = [pc EXCEPT ![r] = "rel"]
   /\ UNCHANGED <<cfg, pool, nextc, cst, corg, cmux, cexp, cdead, cerr, cstr, ccnt, evicted, queue, asg, tocl, nxt, exc, creq, sent, got, wdl, clock, budget, pclosed>>
 
@@ -420,7 +435,7 @@ ConnRelease(r) ==
   /\ pc[r] = "rel"
   /\ LET c == asg[r]
          others == Users(c) \ {r}
-         clean == cexch[c] = "clean" \/ "IdleAlways" \in Deviations
+         clean == cexch[c] = "clean" \/ Dev("IdleAlways")
      IN
      IF cmux[c]
      THEN /\ IF others = {} /\ cst[c] = "active"
@@ -451,14 +466,20 @@ Outcome(r) == CASE exc[r] = "none" -> "done" [] exc[r] = "fail" -> "failed"
 Orphan(r) == LET c == asg[r] IN
   /\ c # None /\ cst[c] = "connecting" /\ cstr[c] = "none"
   /\ ~\E x \in Req \ {r} : asg[x] = c
-  /\ "AbandonAssignedFresh" \notin Deviations
 LeaveSt(r) == IF Orphan(r) THEN [cst EXCEPT ![asg[r]] = "failed"] ELSE cst
+(* DEVIATION AbandonAssignedFresh: the connection that was created for r and assigned to it while
+   it was parked is simply left behind (reports CONNECTING for ever) *)
+LeaveSts(r) == {LeaveSt(r)} \cup (IF Dev("AbandonAssignedFresh") THEN {cst} ELSE {})
 
 LeaveW(r, S) ==
   /\ pc[r] = "leave"
-  /\ ApplyPass(r, S, SeqRemove(queue, r), Outcome(r), pc)
+  /\ ApplyPass(r, S, IF Dev("ForgetRemove") THEN queue ELSE SeqRemove(queue, r), Outcome(r), pc)
   /\ UNCHANGED <<cfg, cmux, cexp, cdead, cerr, cstr, ccnt, cexch, cwire, exc, creq, sent, got, wdl, clock, budget, pclosed>>
-Leave(r) == LeaveW(r, PassResult(SeqRemove(queue, r), [asg EXCEPT ![r] = None], LeaveSt(r)))
+Leave(r) ==
+  \E st0 \in LeaveSts(r) :
+    IF Dev("NoPassOnLeave")
+      THEN LeaveW(r, [cur |-> pool, asg |-> [asg EXCEPT ![r] = None], cl |-> {}, nx |-> nextc, st |-> cst, org |-> corg])
+      ELSE LeaveW(r, PassResult(SeqRemove(queue, r), [asg EXCEPT ![r] = None], st0))
 
 (***************************************************************************)
 (* Failures and cancellation (environment)                                 *)
@@ -476,36 +497,64 @@ OpFail(r) ==
 
 (* scope-style cancellation is level triggered: requested once, delivered at the next
    unshielded suspension point *)
-CancelRequest(r) ==
-  /\ Live(r) /\ ~creq[r] /\ budget > 0
-  /\ creq' = [creq EXCEPT ![r] = TRUE]
+CancelRequestS(r, style) ==
+  /\ Live(r) /\ creq[r] = "no" /\ budget > 0
+  /\ creq' = [creq EXCEPT ![r] = style]
   /\ budget' = budget - 1
   /\ UNCHANGED <<cfg, pool, nextc, cvars, evicted, queue, pc, asg, tocl, nxt, exc, sent, got, wdl, clock, pclosed>>
+CancelRequest(r) == \E style \in CancelStyles : CancelRequestS(r, style)
 
 CancelDeliver(r) ==
-  /\ creq[r] /\ exc[r] = "none"
-  /\ \/ /\ pc[r] \in {"wait", "parked", "enter", "reqlock"}
+  /\ creq[r] # "no" /\ exc[r] = "none"
+  /\ \/ /\ pc[r] \in {"wait", "parked", "enter"}
         /\ pc' = [pc EXCEPT ![r] = "leave"]
         /\ UNCHANGED <<cst, cstr>>
+     \/ /\ pc[r] = "reqlock"       \* waiting for the request lock of a connection somebody else establishes
+        /\ pc' = [pc EXCEPT ![r] = "leave"]
+        /\ UNCHANGED cstr
+        /\ \/ UNCHANGED cst
+           \/ \* DEVIATION WaiterCancelFlagsFailed: the failure flag is set by the WAITING request
+              \* (connection.py 75-101: the try block encloses the lock acquisition)
+              Dev("WaiterCancelFlagsFailed") /\ cst[asg[r]] = "connecting"
+                 /\ cst' = [cst EXCEPT ![asg[r]] = "failed"]
      \/ /\ pc[r] = "estab"           \* cancelled while connecting: failure flag (connection.py 99-101)
         /\ cst' = [cst EXCEPT ![asg[r]] = "failed"]
         /\ pc' = [pc EXCEPT ![r] = "leave"]
         /\ UNCHANGED cstr
      \/ /\ pc[r] = "tls"             \* cancelled on the open stream: flag, and the stream is closed
         /\ cst' = [cst EXCEPT ![asg[r]] = "failed"]
-        /\ cstr' = [cstr EXCEPT ![asg[r]] = IF "CancelInEstabLeaksStream" \in Deviations THEN @ ELSE "closed"]
+        /\ \/ cstr' = [cstr EXCEPT ![asg[r]] = "closed"]
+           \/ Dev("CancelInEstabLeaksStream") /\ UNCHANGED cstr
         /\ pc' = [pc EXCEPT ![r] = "leave"]
-     \/ /\ pc[r] = "gate"            \* at the state lock, before the ACTIVE gate: no clean-up runs
-        /\ IF "CancelAtGateLeavesNew" \in Deviations \/ cst[asg[r]] # "new"
-             THEN UNCHANGED cst /\ pc' = [pc EXCEPT ![r] = "leave"]
-             ELSE cst' = [cst EXCEPT ![asg[r]] = "closed"] /\ pc' = [pc EXCEPT ![r] = "relstr"]
+     \/ /\ pc[r] = "gate"            \* at the state lock, before the ACTIVE gate
         /\ UNCHANGED cstr
+        /\ \/ \* intended: a fresh connection nobody has used yet is closed (its stream follows)
+              /\ cst[asg[r]] = "new"
+              /\ cst' = [cst EXCEPT ![asg[r]] = "closed"] /\ pc' = [pc EXCEPT ![r] = "relstr"]
+           \/ \* a connection that others may use (idle / multiplexing) is left alone ...
+              \* DEVIATION CancelAtGateLeavesNew: ... and so is the fresh one: no clean-up runs, it
+              \* stays NEW for ever
+              /\ cst[asg[r]] # "new" \/ Dev("CancelAtGateLeavesNew")
+              /\ UNCHANGED cst /\ pc' = [pc EXCEPT ![r] = "leave"]
      \/ /\ pc[r] \in InExchange
         /\ pc' = [pc EXCEPT ![r] = "rel"]
         /\ UNCHANGED <<cst, cstr>>
+     \/ /\ pc[r] = "rel"             \* the caller itself is cancelled between reading and closing:
+        /\ UNCHANGED <<pc, cst, cstr>>  \* the close runs as usual, only the outcome differs
   /\ exc' = [exc EXCEPT ![r] = "cancel"]
   /\ wdl' = [wdl EXCEPT ![r] = NoTimeout]
   /\ UNCHANGED <<cfg, pool, nextc, corg, cmux, cexp, cdead, cerr, ccnt, cexch, cwire, evicted, queue, asg, tocl, nxt, creq, sent, got, clock, budget, pclosed>>
+
+(* DEVIATION NativeCancelInShield: one-shot task cancellation (asyncio Task.cancel) is not held
+   off by the anyio shield.  Delivered inside the shielded _response_closed, the connection-level
+   release is abandoned; on the normal close path (PoolByteStream.aclose, no exception being
+   unwound) the exception leaves aclose before the request is removed from the queue. *)
+NativeCancelInShield(r) ==
+  /\ Dev("NativeCancelInShield") /\ creq[r] = "native" /\ pc[r] = "rel"
+  /\ pc' = [pc EXCEPT ![r] = IF exc[r] = "none" THEN "cancelled" ELSE "leave"]
+  /\ exc' = [exc EXCEPT ![r] = "cancel"]
+  /\ creq' = [creq EXCEPT ![r] = "no"]
+  /\ UNCHANGED <<cfg, pool, nextc, cvars, evicted, queue, asg, tocl, nxt, sent, got, wdl, clock, budget, pclosed>>
 
 (* intended design: the never-used fresh connection that was closed at the gate releases its stream *)
 ReleaseStream(r) ==
@@ -529,10 +578,22 @@ PeerClose(c) ==
   /\ budget' = budget - 1
   /\ UNCHANGED <<cfg, pool, nextc, cst, corg, cmux, cexp, cerr, cstr, ccnt, cexch, cwire, evicted, queue, rvars, clock, pclosed>>
 
+(***************************************************************************)
+(* pool.aclose() (pool 347-353): every pooled connection is taken out and   *)
+(* closed; an object that never got a stream has nothing to close.          *)
+(***************************************************************************)
+PoolCloseAll ==
+  /\ ~pclosed /\ WithPoolClose
+  /\ pclosed' = TRUE
+  /\ pool' = <<>>
+  /\ cst' = [c \in Conn |-> IF c \in PoolSet /\ cst[c] \in {"new", "active", "idle"} THEN "closed" ELSE cst[c]]
+  /\ cstr' = [c \in Conn |-> IF c \in PoolSet /\ cst[c] \in {"new", "active", "idle"} /\ cstr[c] = "open" THEN "closed" ELSE cstr[c]]
+  /\ UNCHANGED <<cfg, nextc, corg, cmux, cexp, cdead, cerr, ccnt, cexch, cwire, evicted, queue, rvars, clock, budget>>
+
 Internal(r) ==
   \/ CloseEvicted(r) \/ StartWait(r) \/ Wake(r) \/ PoolTimeout(r) \/ Enter(r) \/ ReqLock(r)
   \/ ConnectOk(r) \/ Established(r) \/ Activate(r) \/ Retry(r) \/ Send(r) \/ RecvHead(r) \/ ReadAll(r)
-  \/ ConnRelease(r) \/ Leave(r) \/ CancelDeliver(r) \/ ReleaseStream(r)
+  \/ ConnRelease(r) \/ Leave(r) \/ CancelDeliver(r) \/ ReleaseStream(r) \/ NativeCancelInShield(r)
 
 Env(r) == Call(r) \/ ConnectFail(r) \/ EstabFail(r) \/ OpFail(r) \/ CancelRequest(r) \/ Abandon(r)
 
@@ -542,6 +603,7 @@ Next ==
   \/ \E r \in Req : Internal(r) \/ Env(r)
   \/ Tick
   \/ \E c \in Conn : PeerClose(c)
+  \/ PoolCloseAll
   \/ Terminated
 
 Spec == Init /\ [][Next]_vars
@@ -612,7 +674,7 @@ PassImplementsRel ==
   [][\A r \in Req : PassStep(r) =>
         LET Q2 == queue' IN
         PassRel(pool, [asg EXCEPT ![r] = IF pc[r] = "leave" THEN None ELSE @], Q2, pool', asg', tocl'[r], clock,
-                IF pc[r] = "leave" THEN LeaveSt(r) ELSE cst)]_vars
+                IF pc[r] = "leave" /\ cst' # cst /\ Orphan(r) /\ cst'[asg[r]] = "failed" THEN LeaveSt(r) ELSE cst, FALSE)]_vars
 
 (* C16: PoolTimeout exactly at the deadline, never for a request that holds a connection *)
 PoolTimeoutExact ==
